@@ -92,18 +92,20 @@ def check_attributes():
     return Scenario(label, KA + '.check_attributes', gen, props=('C16', 'C07', 'C06'))
 
 
-def action_wrapper():
-    label = 'C16/KeyAction.__call__._action'
+def action_wrapper(which):
+    """the wrapper KeyAction puts around every key operation: order of the gates, and what the action is called with.
+    which: 'other' (any action but certify) | 'certify-own-uid' | 'certify-foreign-uid'"""
+    label = 'C16/KeyAction.__call__._action[%s]' % which
 
     def gen(repo):
         r = scn.Run(repo, KA, '__call__', label)
         ex, st = r.ex, r.st
         me = E.VObj(KA, 'action')
         key, chosen = E.VObj(KEY, 'key'), E.VObj(KEY, 'chosen')
-        haskey, nouids, primary, usage_ok, attrs_ok, is_first_cert = [z3.Bool(n) for n in
-                                                                     ('has_key_material', 'no_user_id', 'is_primary', 'usage_allows', 'attributes_ok', 'action_is_certify')]
-        r.hook(KEY, '_key', lambda ex, st, o, a: [(st, E.VObj('pgpy.packet.packets.PrivKeyV4', 'pkt'))])
-        # model `key._key is None` through a symbolic fork
+        otherkey = E.VObj(KEY, 'otherkey')
+        haskey, nouids, primary, usage_ok, attrs_key_ok, attrs_chosen_ok = [z3.Bool(n) for n in
+            ('has_key_material', 'no_user_id', 'is_primary', 'a_component_may_act', 'conditions_hold_for_the_key', 'conditions_hold_for_the_chosen_component')]
+
         def keypkt(ex, st, o, a):
             s2 = st.clone()
             st.pc.append(haskey)
@@ -118,17 +120,18 @@ def action_wrapper():
             return [(st, ex.new_list(st, [])), (s2, ex.new_list(s2, [E.VObj('pgpy.pgp.PGPUID', 'uid0')]))]
         r.hook(KEY, '_uids', uids)
         r.hook(KEY, 'is_primary', scn.const(E.VBool(primary)))
-        wrapped_certify = E.VExt('certify.__wrapped__', ())
-        other_action = E.VExt('some.action', ())
-
-        def certify_attr(ex, st, o, a):
-            return [(st, E.VExt('certify', ()))]
-        r.hook(KEY, 'certify', certify_attr)
-        ex.hooks[('ext:certify', '__wrapped__')] = lambda ex, st, o, a: [(st, wrapped_certify)]
-        ex.hooks[('ext:certify', '__wrapped__')].is_method = False
+        wrapped_certify = E.VExt('the-certify-function', ())
+        other_action = E.VExt('some-other-action', ())
+        cert = E.VExt('certify-bound-method', ())
+        r.hook(KEY, 'certify', scn.const(cert))
+        ex.hooks[('ext:certify-bound-method', '__wrapped__')] = lambda ex, st, o, a: [(st, wrapped_certify)]
+        ex.hooks[('ext:certify-bound-method', '__wrapped__')].is_method = False
+        subject = E.VObj('pgpy.pgp.PGPUID', 'subject')
+        r.hook('pgpy.types.ParentRef', 'parent', lambda ex, st, o, a: [(st, key if which == 'certify-own-uid' else otherkey)])
+        r.hook('pgpy.pgp.PGPUID', 'is_uid', scn.const(E.VBool(True)))
 
         def usage(ex, st, o, a):
-            st.ghost['usage_args'] = a
+            st.ghost['order'] = st.ghost.get('order', ()) + ('usage',)
             s2 = st.clone()
             st.pc.append(usage_ok)
             s2.pc.append(z3.Not(usage_ok))
@@ -136,36 +139,46 @@ def action_wrapper():
         r.hook(KA, 'usage', scn.method_hook(usage))
 
         def chk(ex, st, o, a):
-            st.ghost['checked'] = a[0]
-            st.ghost['action_called_before_check'] = st.ghost.get('action_args') is not None
+            which_obj = a[0].ref
+            st.ghost['order'] = st.ghost.get('order', ()) + ('check:' + which_obj,)
+            cond = attrs_key_ok if which_obj == 'key' else attrs_chosen_ok
             s2 = st.clone()
-            st.pc.append(attrs_ok)
-            s2.pc.append(z3.Not(attrs_ok))
+            st.pc.append(cond)
+            s2.pc.append(z3.Not(cond))
             return [(st, E.VNone()), (s2, E.Raise('PGPError', 0))]
         r.hook(KA, 'check_attributes', scn.method_hook(chk))
         RES = E.VExt('result-of-action', ())
+        act = other_action if which == 'other' else wrapped_certify
 
-        def run(which):
-            act = wrapped_certify if which == 'certify' else other_action
-
-            def do_action(ex, st, o, a):
-                st.ghost['action_args'] = a
-                return [(st, RES)]
-            ex.hooks[('ext', act.name)] = do_action
-            outs = r.call(me, [E.VBuiltin(act.name)])
-            return outs
-        # the decorated action: an external callable; (a) some action other than certify, (b) certify itself
-        for which in ('other', 'certify'):
-            st0 = r.st.clone()
-            r.st = st0
-            outs = run(which)
-            for pi, (s, wrapper) in enumerate(outs):
-                if isinstance(wrapper, E.Raise) or not isinstance(wrapper, (E.VFunc,)):
-                    # functools.wraps(action)(_action): the decorator returns the wrapper
-                    pass
-            # functools.wraps is external: find the closure and call it directly
+        def do_action(ex, st, o, a):
+            st.ghost['order'] = st.ghost.get('order', ()) + ('action',)
+            st.ghost['action_args'] = a
+            return [(st, RES)]
+        ex.hooks[('ext:' + act.name, '__call__')] = do_action
+        outs = r.call(me, [act])
+        n = 0
+        for s0, wrapper in outs:
+            if isinstance(wrapper, E.Raise) or not isinstance(wrapper, E.VFunc):
+                r.oblige(s0, 'decorator-returns-the-wrapper', z3.BoolVal(False))
+                continue
+            for pi, (s, v) in enumerate(ex.call(wrapper, [key, subject], {}, s0, {'mod': 'pgpy.decorators'}, None, None)):
+                n += 1
+                order = s.ghost.get('order', ())
+                first_ok = which == 'certify-own-uid'
+                complete = z3.Or(z3.Not(nouids), z3.Not(primary), z3.BoolVal(first_ok))
+                if isinstance(v, E.Raise):
+                    r.oblige(s, 'refusals-are-PGPError/p%d' % pi, z3.BoolVal(v.exc.split(':')[0] == 'PGPError'), v.where)
+                    r.oblige(s, 'refused=>the-action-did-not-run/p%d' % pi, z3.BoolVal('action' not in order))
+                    r.oblige(s, 'refuses-only-when-a-gate-fails/p%d' % pi, z3.Not(z3.And(haskey, complete, usage_ok, attrs_key_ok, attrs_chosen_ok)))
+                    continue
+                r.oblige(s, 'runs-only-with-key-material,identity-gate,usage,conditions/p%d' % pi, z3.And(haskey, complete, usage_ok, attrs_key_ok, attrs_chosen_ok))
+                r.oblige(s, 'gates-before-the-action:usage,conditions-of-key-and-of-the-chosen-component/p%d' % pi,
+                         z3.BoolVal(order == ('usage', 'check:key', 'check:chosen', 'action')))
+                aa = s.ghost.get('action_args')
+                r.oblige(s, 'action-runs-on-the-chosen-component-with-the-caller-arguments/p%d' % pi, z3.BoolVal(aa is not None and aa[0] is chosen and aa[1] is subject and v is RES))
+        r.oblige(r.st, 'cover-paths', z3.BoolVal(n >= 4))
         return r.result()
-    return None
+    return Scenario(label, KA + '.__call__', gen, props=('C16', 'C07', 'C06'))
 
 
 def get_key_flags():
@@ -223,4 +236,4 @@ def get_key_flags():
 
 
 def scenarios():
-    return [usage(0), usage(1), usage(2), check_attributes(), get_key_flags()]
+    return [usage(0), usage(1), usage(2), check_attributes(), get_key_flags()] + [action_wrapper(w) for w in ('other', 'certify-own-uid', 'certify-foreign-uid')]
